@@ -229,9 +229,12 @@ def _mk_exact(pb, X, y):
     from vf import util
 
     B = torch.Size(pb)
-    lik = gpytorch.likelihoods.GaussianLikelihood(batch_shape=B)
-    k = gpytorch.kernels.ScaleKernel(gpytorch.kernels.MaternKernel(nu=2.5, ard_num_dims=D, batch_shape=B), batch_shape=B)
-    return util.GP(X, y, lik, gpytorch.means.ConstantMean(batch_shape=B), k)
+    P = gpytorch.priors
+    # element-wise priors on every hyper-parameter (ARD lengthscales included): the objective of element b contains the
+    # prior terms of element b's parameters only
+    lik = gpytorch.likelihoods.GaussianLikelihood(batch_shape=B, noise_prior=P.GammaPrior(1.1, 2.0))
+    k = gpytorch.kernels.ScaleKernel(gpytorch.kernels.MaternKernel(nu=2.5, ard_num_dims=D, batch_shape=B, lengthscale_prior=P.GammaPrior(2.0, 1.5)), batch_shape=B, outputscale_prior=P.LogNormalPrior(0.1, 0.7))
+    return util.GP(X, y, lik, gpytorch.means.ConstantMean(batch_shape=B, constant_prior=P.NormalPrior(0.0, 1.5)), k)
 
 
 def _exact(case, ctx, g):
@@ -255,17 +258,28 @@ def _exact(case, ctx, g):
                 out = m(xs)
                 mean, cov = out.mean, out.covariance_matrix
             m.train()
-            v = gpytorch.mlls.ExactMarginalLogLikelihood(m.likelihood, m)(m(X), y)
+            try:
+                v = gpytorch.mlls.ExactMarginalLogLikelihood(m.likelihood, m)(m(X), y)
+            except Exception as e_mll:
+                import traceback
+
+                ctx.fail("mll_replica", f"batched exact MLL raised {type(e_mll).__name__}: {str(e_mll)[:140]}", "raise", exc=type(e_mll).__name__, param_batch_rank=len(pb), result_batch_rank=len(full),
+                         in_prior_terms="_add_other_terms" in traceback.format_exc())
+                v = None
     except Exception as e:
-        ctx.fail("posterior_replica", f"batched exact GP raised {type(e).__name__}: {str(e)[:140]}", "raise", exc=type(e).__name__, prank=len(pb), drank=len(db), pbatch=pb, dbatch=db)
+        ctx.fail("posterior_replica", f"batched exact GP raised {type(e).__name__}: {str(e)[:140]}", "raise", exc=type(e).__name__, prank=len(pb), drank=len(db), pbatch=pb, dbatch=db,
+                 param_batch_rank=len(pb), result_batch_rank=len(full), in_prior_terms="_add_other_terms" in __import__("traceback").format_exc())
         ctx.cell(*_cell(case, full))
         return
     if yonly:
+        if v is None:
+            ctx.cell(*_cell(case, full))
+            return
         ctx.expect("exact_batch_shape", list(v.shape) == full, f"mll {list(v.shape)} expected {full}")
         ve = _ex(v, full)
     else:
-        ctx.expect("exact_batch_shape", list(mean.shape[:-1]) == full and list(v.shape) == full, f"posterior batch {list(mean.shape[:-1])} mll {list(v.shape)} expected {full}")
-        me, ce, ve = _ex(mean, full, ns), _ex(cov, full, ns, ns), _ex(v, full)
+        ctx.expect("exact_batch_shape", list(mean.shape[:-1]) == full and (v is None or list(v.shape) == full), f"posterior batch {list(mean.shape[:-1])} mll {None if v is None else list(v.shape)} expected {full}")
+        me, ce, ve = _ex(mean, full, ns), _ex(cov, full, ns, ns), (_ex(v, full) if v is not None else None)
     for b in _elements(full):
         Xb, yb_, xsb = _sl(X, db, b, full), _sl(y, yb, b, full), _sl(xs, db, b, full)
         r = _mk_exact([], Xb, yb_)
@@ -277,7 +291,8 @@ def _exact(case, ctx, g):
             rv = gpytorch.mlls.ExactMarginalLogLikelihood(r.likelihood, r)(r(Xb), yb_)
         if not yonly:
             ctx.close("posterior_replica", torch.cat([me[b], ce[b].reshape(-1)]), torch.cat([ro.mean, ro.covariance_matrix.reshape(-1)]), "direct", cls="exact:posterior", element=list(b))
-        ctx.close("mll_replica", ve[b], rv, "direct", cls="exact:mll" + (":ybatch" if yonly else ""), element=list(b))
+        if ve is not None:
+            ctx.close("mll_replica", ve[b], rv, "direct", cls="exact:mll" + (":ybatch" if yonly else ""), element=list(b), param_batch_rank=len(pb), result_batch_rank=len(full))
     ctx.cell(*_cell(case, full))
 
 
@@ -411,6 +426,15 @@ def _modellist(case, ctx, g):
     ctx.cell({k: v for k, v in case.items() if k != "seed"})
 
 
+def _mll_prior_rank(case, fl):
+    """ExactMarginalLogLikelihood._add_other_terms keeps the first `result batch rank` dimensions of a prior's log_prob as batch
+    dimensions: for a parameter with FEWER batch dimensions than the result (un-batched ARD lengthscale (1, D) under data
+    of batch rank 2) the ARD dimension is read as a batch dimension - cross-wired when D equals that batch size, a
+    RuntimeError otherwise"""
+    lower = fl.get("result_batch_rank", 0) >= 2 and fl.get("param_batch_rank", 9) < fl.get("result_batch_rank", 0)
+    return lower and fl["monitor"] == "mll_replica" and (fl.get("mechanism") != "raise" or fl.get("in_prior_terms") is True)
+
+
 def _grad_kernel_broadcast(case, fl):
     """derivative kernels (RBFKernelGrad / Matern52KernelGrad) build their blocks with view/repeat on the DATA batch shape:
     a parameter batch shape that is not identical to the data batch shape raises (never a silent value)"""
@@ -418,4 +442,4 @@ def _grad_kernel_broadcast(case, fl):
             and list(fl.get("pbatch", [])) != list(fl.get("dbatch", [])))
 
 
-MATCHERS = {"C08-derivative-kernels-parameter-batch-broadcast": _grad_kernel_broadcast}
+MATCHERS = {"C08-derivative-kernels-parameter-batch-broadcast": _grad_kernel_broadcast, "C08-mll-prior-terms-lower-rank-parameter-batch": _mll_prior_rank}
